@@ -147,7 +147,8 @@ theorem doomed_irun {s t : Sess} (r : IRun s t) (h : Doomed s) : Doomed t := by
   | recv hs _ ih => exact ih (doomed_recvStepP hs)
 
 /-- **Whatever ends it.** For every terminating event of the property's list — local `Close` (`.close`), peer close
-    (`.peerClose`), read error or read timeout (`.readFail`), write error or write timeout (`.writeFail`), a panic in
+    (`.peerClose`), read error or read timeout (`.readFail`), write error or write timeout (`.writeFail`, after a partial write:
+    `.writeFailAfter n`), a panic in
     the read handler (`.handlerPanic`) — from ANY reachable state in which the event is a terminating one
     (`Terminating s e`: always for the read-side events and the peer close; for a failing write when a write is in
     progress or queued; for a local Close unless a write stays blocked on a peer that does not read), EVERY schedule of
@@ -458,6 +459,11 @@ example : let s := events Cfg.good Sess.init [.peerHold, .send [1], .send [2]]
     Terminating s .writeFail ∧
     ((sessLTS Cfg.good).run (envStep s .writeFail)
       [.sendStep, .sendStep, .sendStep, .sendStep, .sendStep, .recvStep, .recvStep]).map (fun t => decide (ended t)) = some true := by decide
+
+/-- a partial write followed by a write error / timeout: the peer has a proper prefix of the item, the session is over,
+    nothing else of the queue is ever written (no retry, no duplicate) -/
+example : let s := events Cfg.good Sess.init [.send [9], .writeFailAfter 2, .send [1, 2, 3, 4], .send [5]]
+    ended s ∧ s.delivered = [9, 1, 2] ∧ s.accepted = [[9], [1, 2, 3, 4]] := by decide
 
 /-- the peer closes while a write is blocked: both loops race for `exitOnce`; the receive-first schedule ends where
     the oracle's send-first schedule (`event`) ends -/
